@@ -239,6 +239,17 @@ def right_recursion_behind_nullables(rng, terms, order):
         rng.shuffle(alts)
         prods[n] = alts
     prods[b] = [(rng.choice(terms),)] + ([(rng.choice(terms), rng.choice(terms))] if rng.random() < 0.4 else [])
+    if rng.random() < 0.35:
+        # B has no token of its own: it is the same nullable symbol two or three times and a symbol that is not
+        # nullable (fewer DISTINCT symbols than positions; B is not nullable, whatever is counted)
+        q = nulls[0] if nulls and rng.random() < 0.7 else 'P'
+        if q == 'P':
+            prods['P'] = [(), (rng.choice(terms),)]
+        prods['M'] = [(rng.choice(terms),)]
+        body = [q] * rng.choice([2, 2, 3]) + ['M']
+        if rng.random() < 0.4:
+            rng.shuffle(body)
+        prods[b] = [tuple(body)]
     tail = tuple(rng.choice(terms) for _ in range(rng.randint(0, 1)))
     alts = [tuple(nulls) + (b, x) + tail, (rng.choice(terms),)]
     rng.shuffle(alts)
